@@ -51,7 +51,7 @@ int main(int argc, char** argv) {
         } else {
             start = rnd.nextInt(2) ? fens[0] : fens[rnd.nextInt((int)fens.size())];
             pos = TextIO::readFEN(start);
-            int pre = rnd.nextInt(40);
+            int pre = (rnd.nextInt(100) < 35) ? 90 + rnd.nextInt(90) : rnd.nextInt(40);   // also histories longer than 100 plies
             for (int i = 0; i < pre; i++) {
                 MoveList ml; legalMoves(pos, ml);
                 if (ml.size == 0) break;
@@ -100,7 +100,11 @@ int main(int argc, char** argv) {
                 else if (ml.size == 1) { cat = "single"; ci = 2; }
                 else if (pos.getHalfMoveClock() >= 97) { cat = "fifty"; ci = 3; }
                 else if (pos.nPieces() <= 6) { cat = "sparse"; ci = 4; }
-                if (cat && want(ci, ci == 4 ? 10 : 8) && rnd.nextInt(3) == 0) { emit(cat, pos, start, hist, ml.size); quota[ci]++; emitted++; }
+                if (!cat || ci == 4) {
+                    for (int k = 0; k < ml.size; k++)
+                        if (ml[k].promoteTo() != Piece::EMPTY) { cat = "promo"; ci = 6; break; }
+                }
+                if (cat && want(ci, ci == 4 ? 10 : 8) && (ci == 6 || rnd.nextInt(3) == 0)) { emit(cat, pos, start, hist, ml.size); quota[ci]++; emitted++; }
                 else if (!cat && rnd.nextInt(25) == 0 && want(0, 45)) { emit("game", pos, start, hist, ml.size); quota[0]++; emitted++; }
                 if (ml.size == 0 || pos.getHalfMoveClock() >= 100) break;
                 UndoInfo ui;
